@@ -3,6 +3,7 @@ from tools import push, vlib
 
 
 
+KEY_PIPE = "pipeline/flat_map-over-fanout/poll_ready-after-finalize-Done"
 KEY_RESOLVE = "resolve_futures/start_send-after-poll_finalize-began"
 
 
@@ -13,10 +14,13 @@ class C12(vlib.Spec):
                 "C12_filter_map", "C12_filter_map_terminates",
                 "C12_flat_map", "C12_flatten", "C12_flat_map_terminates", "C12_flatten_terminates",
                 "C12_inspect", "C12_unzip_fixed", "C12_fanout_fixed", "C12_fanout_fixed_terminates",
-                "C12_unzip_fixed_terminates", "C12_demux_fixed", "C12_demux_fixed_terminates"]
+                "C12_unzip_fixed_terminates", "C12_demux_fixed", "C12_demux_fixed_terminates",
+                "C12_compose_forwarding", "C12_compose_map", "C12_compose_filter", "C12_compose_flat_map",
+                "C12_compose_base", "C12_pipeline_map_flatmap_filter",
+                "C12_compose_flat_map_over_fanout_refuted"]
     crate, group, binary = "h_push", "light", "h_push"
     shrink_rounds = 20
-    level = "proof"
+    level = "other"
     imports = "From Coq Require Import List NArith.\nImport ListNotations.\nFrom HV Require Import Push.Model Push.Run."
     trusted_base = ["coqc 8.16.1 kernel (vm_compute used for case evaluation only)",
                     "hand transcription of dfir_pipes/src/push/*.rs into coq/theories/Push/Model.v",
@@ -34,7 +38,7 @@ class C12(vlib.Spec):
         return push.gen_push_cases(rng, tier, n)
 
     def n_cases(self, tier):
-        return 900 if tier == "quick" else 30000
+        return 1470 if tier == "quick" else 42000
 
     def to_coq(self, case, res):
         return push.push_term(case, res, "chk12")
@@ -45,6 +49,8 @@ class C12(vlib.Spec):
     def finding_key(self, case, res):
         if push.resolve_send_after_fin(case, res):
             return KEY_RESOLVE
+        if push.pipe_ready_after_done(case, res):
+            return KEY_PIPE
         return None
 
     def nontrivial(self, case, res):
